@@ -72,18 +72,24 @@ func (rm *RegistrationManager) HandleRegUpdates(ctx context.Context, regChan <-c
 	// distribute messages to workers. When workers are unavailable messages are
 	// added into channel buffer until full, then dropped.
 distrLoop:
-	for msg := range regChan {
-		rm.addIngestMessage()
+	for ctx.Err() == nil {
 		select {
 		case <-ctx.Done():
-			logger.Infof("closing all ingest threads")
 			break distrLoop
-		case shallowBuffer <- msg:
-		default:
-			logger.Tracef("dropping registration")
-			rm.addDroppedMessage()
+		case msg, ok := <-regChan:
+			if !ok {
+				break distrLoop
+			}
+			rm.addIngestMessage()
+			select {
+			case shallowBuffer <- msg:
+			default:
+				logger.Tracef("dropping registration")
+				rm.addDroppedMessage()
+			}
 		}
 	}
+	logger.Infof("closing all ingest threads")
 
 	wg.Wait()
 }
